@@ -310,6 +310,28 @@ func c19Run(p *run.Part, tier string) {
 		nsub += len(all)
 		parallelFor(len(all), func(i int) { c19Sort(p, all[i]) })
 	}
+	// longer lists (a sort may treat them differently from short ones): every 5-subset (quick) and every 5-, 6- and
+	// 7-subset (thorough) of eleven entries spread over the whole grid (all three times, all ids, all hashes)
+	var spread []int
+	for i := 0; i < n; i += 5 {
+		spread = append(spread, i)
+	}
+	ks := []int{5}
+	if tier == "thorough" {
+		ks = []int{5, 6, 7}
+	}
+	for _, k := range ks {
+		var all [][]int
+		subsets(len(spread), k, func(s []int) {
+			m := make([]int, len(s))
+			for i, x := range s {
+				m[i] = spread[x]
+			}
+			all = append(all, m)
+		})
+		nsub += len(all)
+		parallelFor(len(all), func(i int) { c19Sort(p, all[i]) })
+	}
 	p.SetExtra("sort_subsets", nsub)
 	// undefined arguments
 	_, err := sorting.Compare(nil, c19Grid[0])
